@@ -31,6 +31,7 @@ func loadString(filename string) (*CandidateNode, error) {
 }
 
 func loadWithDecoder(filename string, decoder Decoder) (*CandidateNode, error) {
+	verifYield("loadWithDecoder")
 	if decoder == nil {
 		return nil, fmt.Errorf("could not load %s", filename)
 	}
